@@ -263,3 +263,24 @@ def impose_collapse(h):
         h.check('points-in-no-pair-keep-their-weight', ' and '.join('w2[%d] == w[%d]' % (i, i) for i in free), **e)
     h.check('total-weight-kept', '%s == %s' % (_sum('w2', n), _sum('w', n)), **e)
     h.check('weighted-mean-kept', '%s == %s' % (_mean('y', n, 'w2'), _mean('x', n, 'w')), **e)
+
+
+@contract('C18/Lnorm', ['C18', 'C10'], 'mystic/math/distance.py::Lnorm', samples=200)
+def lnorm(h):
+    """the L-p norm of a vector for p = 1 (sum of magnitudes), 2 (root of the sum of squares), inf (largest magnitude)
+    and 0 (number of non-zero entries): textbook definitions, any signs (p = -inf is outside the documented domain
+    [0, inf]; the code path for it raises TypeError -- noted in DESIGN 5, not a finding against C18)"""
+    n = h.choice('n', [1, 2, 3])
+    p = h.choice('p', ['1', '2', 'inf', '0'])          # documented domain: p in [0, inf]
+    w = h.vec('w', n)
+    pv = {'1': 1, '2': 2, 'inf': h.inf(), '0': 0}[p]
+    r = h.call(h.get('mystic/math/distance.py::Lnorm'), w, pv)
+    a = ['(w[%d] if w[%d] >= 0 else -w[%d])' % (i, i, i) for i in range(n)]
+    if p == '1':
+        h.check('sum-of-magnitudes', 'r == ' + ' + '.join(a), r=r, w=w)
+    elif p == '2':
+        h.check('root-of-the-sum-of-squares', 'r >= 0 and r * r == ' + ' + '.join('w[%d] * w[%d]' % (i, i) for i in range(n)), r=r, w=w)
+    elif p == 'inf':
+        h.check('largest-magnitude', 'r == max(%s)' % ', '.join(a + ['0']) if n == 1 else 'r == max(%s)' % ', '.join(a), r=r, w=w)
+    else:
+        h.check('number-of-non-zero-entries', 'r == ' + ' + '.join('(1 if w[%d] != 0 else 0)' % i for i in range(n)), r=r, w=w)
